@@ -75,7 +75,7 @@ def gen_mixed(rng, tier):
     dim = rng.choice([1, 2, 3, 3])
     while True:
         lens = [rng.randint(1, 2 if quick else 3) for _ in range(rng.choice([2, 3]))]
-        if sum(lens) <= (4 if quick else 6):
+        if sum(lens) <= (4 if quick else 5):
             break
     fam = rng.random() < 0.5                      # family of the outermost block
     ops = []
@@ -333,17 +333,18 @@ def main(run, replay=None):
                 c2 = dict(best, ops=ops[:k] + ops[k + 1:])
                 if c2 not in cands:
                     cands.append(c2)
-        for st in subtrees(best["tree"]):
-            cands.append(dict(best, tree=st))
+        if not best.get("tensor"):
+            for st in subtrees(best["tree"]):
+                cands.append(dict(best, tree=st))
         return cands[:24]
 
     failing.sort(key=lambda f: (is_mixed(cases[f[0]]), f[0]))     # single-family inputs first
-    reported, reported_sigs = set(), set()
+    reported, reported_sigs, tries = set(), set(), {}
     for ci, kind, msg in failing:
         c = cases[ci]
-        if (kind, is_mixed(c)) in reported:
+        if (kind, is_mixed(c)) in reported or tries.get((kind, is_mixed(c)), 0) >= 3:
             continue
-        reported.add((kind, is_mixed(c)))
+        tries[(kind, is_mixed(c))] = tries.get((kind, is_mixed(c)), 0) + 1
         best = copy.deepcopy(c)
         if not replay and kind != "crash":
             # shrink: fewer blocks / operators, smaller tree
@@ -359,12 +360,19 @@ def main(run, replay=None):
             best["kind"] = "mixed"
         elif best.get("kind") == "mixed":
             best["kind"] = "supported"
+        # a mixed input whose failure does not need the mixing shrinks to a single-family input: it is the same
+        # finding as the single-family one; look at the next mixed input (at most three) for one that does need it
+        reported.add((kind, is_mixed(best)))
         if json.dumps(sig, sort_keys=True) in reported_sigs:
             continue
         reported_sigs.add(json.dumps(sig, sort_keys=True))
         rr, _ = run.impl("C05_impl", {"cases": [best]})
         obs = rr["results"][0] if rr else None
-        run.report(sig, "C05 fails on the implementation: " + msg, best, observed=obs,
+        names = {False: ["dx", "dy", "dz"], True: ["dx1", "dx2", "dx3"]}
+        comp = "".join(names[bool(lg)][i] + "(" for lg, i in best["ops"]) + "tree" + ")" * len(best["ops"])
+        if obs and obs.get("oracle", {}).get("ok") is False:
+            msg = "the returned expression is not the partial derivative: %s" % json.dumps(obs["oracle"].get("info"))
+        run.report(sig, "C05 fails on the implementation: %s [applied: %s]" % (msg, comp), best, observed=obs,
                    required="the true partial derivative (sympy.diff on explicit polynomial instantiations) / no refusal on the listed constructors",
                    python="PYTHONPATH=/repo:/verif/tools/impl /venv/bin/python /verif/tools/impl/C05_impl.py in.json out.json  # in.json={'cases':[case]}",
                    theorem_or_case="oracle:%s" % kind)
